@@ -156,7 +156,12 @@ def run(chk):
               'elementpath/xpath_selectors.py', 'elementpath/xpath_tokens/base.py', 'elementpath/xpath30/_xpath30_functions.py'):
         chk.record_source(f)
     chk.forbidden_scan(['C05'])
-    proved = chk.prove(['theories/C05/Model.v', 'theories/C05/Proofs.v', 'theories/C05/Run.v'], 'theories/C05/Properties.v')
+    import sys as _sys
+    _sys.path.insert(0, core.VERIF + '/harness')
+    import gen_c05
+    gen_c05.generate()          # T-data / source-shape facts regenerated from /repo on every run
+    chk.trusted.append('harness/shape.py: AST lookup of the statements mirrored by the hand model (Gen/C05Shape.v)')
+    proved = chk.prove(['theories/Gen/C05Shape.v', 'theories/C05/Model.v', 'theories/C05/Proofs.v', 'theories/C05/Run.v'], 'theories/C05/Properties.v')
     model_ok = True
     if not proved:
         try:
